@@ -19,8 +19,7 @@
     `map_field` (the `[]` case of `partialOldMap` is the read of `map_field[0]` of an empty chunk: `.oob`);
     `data_field[val - d]` = `MapValid.getI`; `result[i]` = the capacity check `acc.length < cap`.
   * `chunks`: no subscript (`JoinOld.nextRange`).
-  The two `_old` kernels and `chunks` are modelled and compared differentially, but NO theorem is proved about their
-  drivers (`streamedOld`, `mapValidStreamOld`): C19's theorems cover the non-streamable configurations only.
+  `Session.join`'s scatter (`JoinOld.scatter` / `setI`) is numpy fancy assignment, not a compiled kernel.
 -/
 namespace Exetera.KernelSites
 
